@@ -35,6 +35,28 @@ Annotated(files, names) ==
                  <<"fname", names[k]>>, <<"nf", ToString(Len(files[k].header) + 4)>> >>]])
 FinalNR(files) == Before(files, Len(files) + 1)
 
+\* "The input-record reader assigns their values" (reference-dsl-variables.md; `repeat -n 3 then put '$nr = NR'` shows the
+\* reader's NR three times): the context variables belong to the record, wherever in the program or the chain they are
+\* consulted.  A use is [mode, sel]: mode "every" (the assignments run on every record), "cond" (they run under the pattern
+\* sel { ... }, the other records pass unannotated), "filter" (filter sel then put: only selected records arrive at the put),
+\* "tac" (tac then put: every record arrives, in reverse order).  sel names a condition on the record's origin: file k,
+\* record j of that file, nr-th record overall.
+Sel(sel, k, j, nr) == CASE sel = "all" -> TRUE [] sel = "fnr1" -> j = 1 [] sel = "fnr2" -> j = 2 [] sel = "fnrgt1" -> j > 1
+                        [] sel = "file2" -> k = 2 [] sel = "filegt1" -> k > 1 [] sel = "nreven" -> nr % 2 = 0 [] sel = "nrgt1" -> nr > 1
+Origins(files) == Concat([k \in 1..Len(files) |-> [j \in 1..Len(files[k].rows) |-> <<k, j>>]])
+Used(files, names, mode, sel) ==
+  LET og == Origins(files)
+      ann == Annotated(files, names)
+      plain == Records(files)
+      hit(i) == Sel(sel, og[i][1], og[i][2], i)
+  IN CASE mode = "every" -> ann
+       [] mode = "cond" -> [i \in 1..Len(og) |-> IF hit(i) THEN ann[i] ELSE plain[i]]
+       [] mode = "filter" -> (LET keep == IdxWhere(og, hit) IN [n \in 1..Len(keep) |-> ann[keep[n]]])
+       [] mode = "tac" -> [i \in 1..Len(og) |-> ann[Len(og) + 1 - i]]
+Modes == {"every", "cond", "filter", "tac"}
+SelNames == {"fnr1", "fnr2", "fnrgt1", "file2", "filegt1", "nreven", "nrgt1"}
+Uses == {[mode |-> "every", sel |-> "all"], [mode |-> "tac", sel |-> "all"]} \cup {[mode |-> m, sel |-> x] : m \in {"cond", "filter"}, x \in SelNames}
+
 \* then-chains: the composition of the verb definitions
 RECURSIVE ChainExpected(_, _)
 ChainExpected(cs, s) == IF cs = <<>> THEN s ELSE ChainExpected(Tail(cs), Expected(Head(cs), s))
@@ -44,6 +66,10 @@ Composable(c) == Deterministic(c) /\ ~(c.v \in {"filter", "filter-x"} /\ c.o = "
 \* laws: concatenation and context
 ConcatLaw(files) == \A k \in 1..Len(files) :
     SubSeq(Records(files), Before(files, k) + 1, Before(files, k) + Len(files[k].rows)) = RecordsOf(files[k])
+\* wherever the context is consulted, an annotated record carries the values of its own origin
+UseLaw(files, names) ==
+  \A u \in Uses : LET out == Used(files, names, u.mode, u.sel)  ann == Annotated(files, names) IN
+     \A i \in 1..Len(out) : Has(out[i], "fname") => \E n \in 1..Len(ann) : out[i] = ann[n]
 ContextLaw(files, names) ==
   LET a == Annotated(files, names) IN
   /\ Len(a) = FinalNR(files)
